@@ -13,6 +13,9 @@ row must be identical, as an exact expression, to the scalar copy applied to tha
  DISPATCH       QuaternionArray.from_DCM, Quaternion.from_DCM and DCM.to_quaternion map the same five method names to the
                 same callees with the same option keywords and defaults.
 Not decided: bitwise equality; estimators whose batch path is a Python loop over estimate() are covered by C03's COUNT.
+Added after the seeding rounds (DESIGN.md 6.6-6.8):
+ ROWWISE / TWIN.from_DCM / TWIN.band  per-sample calls take and fill row t; the array constructor equals the scalar one on each pivot arm (sample-selected paths);
+            the two arms of the closed-form converters gate their shortcuts on the same angle band.
 """
 import ast
 import numpy as np
